@@ -25,7 +25,7 @@ checks = {
   note="Trusts the Go runtime, the spec-derived metadata validator (used only as delivered => valid) and the recording rasteriser's pen semantics; x/image/vector is not driven with corrupt input. Hang = 20 s without a progress beacon.",
   technique="deterministic simulation: seeded fault injection on a simulated byte store + exhaustive single-fault enumeration over the corpus, invariants per read, tape shrinking and replay"),
 "C10": dict(level="fault_enumeration", ref="DESIGN.md §5 C10",
-  text="Producer-fault simulation on the Destination seam of the real Encoder (S2): a 4-state reference automaton written from the property text runs in lockstep and is compared through a Bytes probe (plus CSel/NSel/LOD) after every call. For each sampled legal history a protocol fault of each of 7 classes is injected at every position, then a Reset (restart) at later positions followed by a legal tail that must decode to itself; every history up to depth 5 (quick, 1.1 M) / 7 (thorough, 286 M) over a 16-call abstract alphabet is enumerated completely; plus long legal histories (runs of 37-300 identical drawing calls; half of them with off-lattice numbers and the resolution flag assigned at arbitrary points, judged up to the format's quantisation) and seeded histories over the whole alphabet. Each history runs probed, unprobed and on an Encoder reset with default metadata (zero-value).",
+  text="Producer-fault simulation on the Destination seam of the real Encoder (S2): a 4-state reference automaton written from the property text runs in lockstep and is compared through a Bytes probe (plus CSel/NSel/LOD) after every call. For each sampled legal history a protocol fault of each of 7 classes is injected at every position, then a Reset (restart) at later positions followed by a legal tail that must decode to itself; every history up to depth 5 (quick, 1.1 M) / 7 (thorough, 286 M) over a 16-call abstract alphabet is enumerated completely; plus every adjustment value 0..255 on every call that takes one, every suggested-palette layout (4 formats x 1..64 colours) and every mix of viewBox number forms; plus long legal histories (runs of 37-300 identical drawing calls; half of them with off-lattice numbers and the resolution flag assigned at arbitrary points, judged up to the format's quantisation) and seeded histories over the whole alphabet. Each history runs probed, unprobed and on an Encoder reset with default metadata (zero-value).",
   note="Arguments on the dyadic lattice so 'decodes to that history' is bit-exact; error message text is not mirrored (only error-ness, EncodeError type and identity of the first error).",
   technique="deterministic simulation: fault enumeration over crash points of call histories against a reference automaton, seeded histories, tape shrinking and replay"),
 "C17": dict(level="fault_enumeration", ref="DESIGN.md §5 C17",
